@@ -88,6 +88,17 @@ mod proofs {
         assert!(b.try_cast::<u32>().ok() == Some(x));
     }
 
+    // ---- identity is the TypeId, not the printed name: two distinct types with the same fully qualified name ---------------
+    #[kani::proof]
+    fn same_named_types_are_distinct() {
+        let x: u32 = kani::any();
+        let b = { #[derive(Debug, Clone, PartialEq)] struct Twin(u32); Body::new_with_len(Twin(x), 4) };
+        { #[derive(Debug, Clone, PartialEq)] struct Twin(u64);
+          assert!(!b.is::<Twin>());
+          assert!(b.try_content::<Twin>().is_none());
+          assert!(b.try_cast::<Twin>().is_err()); }
+    }
+
     // ---- clone: equal, independent value; declared length is kept ---------------------------------
     #[kani::proof]
     fn clone_is_equal_and_independent() {
